@@ -575,12 +575,61 @@ Record tg_scfg := {
   sc_snis : option (list (list Z * (list Z * list Z))) (* SNI -> hint, key *)
 }.
 
-(* post_client_hello_gnutls_psk: (hint, session key) in force after the ClientHello *)
+(* host names compare without regard to ASCII case (strcasecmp) *)
+Definition tg_lower (c : Z) : Z := if (65 <=? c) && (c <=? 90) then c + 32 else c.
+Fixpoint tg_ci_eqb (a b : list Z) : bool :=
+  match a, b with
+  | [], [] => true
+  | x :: a', y :: b' => (tg_lower x =? tg_lower y) && tg_ci_eqb a' b'
+  | _, _ => false
+  end.
+Fixpoint tg_lookup_ci {A} (k : list Z) (t : list (list Z * A)) : option A :=
+  match t with
+  | [] => None
+  | (k', v) :: r => if tg_ci_eqb k k' then Some v else tg_lookup_ci k r
+  end.
+
+(* post_client_hello_gnutls_psk keeps a per-context cache name -> credentials, filled from the
+   application's SNI callback (here: the table) the first time a name is seen, and looked up
+   with strcasecmp *)
+Definition tg_sni_cached {A} (cache table : list (list Z * A)) (name : list Z)
+  : option A * list (list Z * A) :=
+  match tg_lookup_ci name cache with
+  | Some v => (Some v, cache)
+  | None => match tg_lookup_ci name table with
+            | Some v => (Some v, cache ++ [(name, v)])
+            | None => (None, cache)
+            end
+  end.
+
+(* coap_sanitize_client_sni: an empty name and anything that looks like a literal IPv4 / IPv6
+   address is not sent as SNI *)
+Definition tg_is_hexc (c : Z) : bool :=
+  ((48 <=? c) && (c <=? 57)) || ((97 <=? c) && (c <=? 102)) || ((65 <=? c) && (c <=? 70)) || (c =? 58).
+Definition tg_is_v4c (c : Z) : bool := ((48 <=? c) && (c <=? 57)) || (c =? 46).
+Fixpoint tg_v6scan (l : list Z) : bool :=
+  match l with
+  | [] => true
+  | c :: r => if c =? 37 then true else if tg_is_hexc c then tg_v6scan r else false
+  end.
+Definition tg_sni_sent (sni : option (list Z)) : option (list Z) :=
+  match sni with
+  | None => None
+  | Some [] => None
+  | Some (c :: r) =>
+      if negb (tg_is_hexc c) then Some (c :: r)
+      else if forallb tg_is_v4c (c :: r) then None
+      else if tg_v6scan (c :: r) then None
+      else Some (c :: r)
+  end.
+
+(* post_client_hello_gnutls_psk: (hint, session key) in force after the ClientHello; the cache is
+   transparent (tg_sni_cache_transparent), so the table decides *)
 Definition tg_server_sni (s : tg_scfg) (sni : option (list Z)) : option (list Z * option (list Z)) :=
   match sc_snis s with
   | None => Some (sc_hint s, None)
   | Some t =>
-      match tg_lookup (match sni with Some n => n | None => [] end) t with
+      match tg_lookup_ci (match sni with Some n => n | None => [] end) t with
       | None => None                                     (* fatal alert unrecognized_name *)
       | Some (h, k) => Some (h, Some k)
       end
@@ -611,7 +660,7 @@ Definition tg_server_key (s : tg_scfg) (sk : option (list Z)) (id : list Z) : op
 
 (* both ends present the same key to GnuTLS *)
 Definition tg_creds_match (c : tg_ccfg) (s : tg_scfg) : bool :=
-  match tg_server_sni s (cc_sni c) with
+  match tg_server_sni s (tg_sni_sent (cc_sni c)) with
   | None => false
   | Some (h, sk) =>
       match tg_client_choice c (tg_hint_seen h) with
